@@ -259,6 +259,9 @@ func (ex *Exec) addrOfExpr(st *State, xx ast.Expr, pty types.Type, k func(*State
 		ex.compositeLit(st, in, func(st *State, v Val) {
 			r := ex.newRef(st, "new")
 			ex.storeStruct(st, r, v)
+			if n, _, _ := structOf(v.Go); n != nil && n.Obj().Pkg() != nil {
+				st.assume(sEq(sApp(ex.dynTypeFn(), r), ex.typeTag(n.Obj().Pkg().Name()+"."+n.Obj().Name())))
+			}
 			k(st, Val{T: r, S: sRef, Go: pty})
 		})
 	case *ast.Ident:
